@@ -26,7 +26,7 @@ pub fn run(rep: &mut Rep) {
         pub_ack_variants: vec![(0, 0), (2, 1)],
         ..Default::default()
     };
-    let depth = if rep.quick() { 6 } else { 8 };
+    let depth = if rep.quick() { 6 } else { 9 };
     // (session expiry interval, seconds since disconnection): >= 6 s away from the boundary so that the wall clock cannot decide
     let configs: Vec<(u32, u64)> = vec![(0, 0), (0, 1000), (100, 0), (100, 50), (100, 94), (100, 106), (100, 1000), (100, 1_000_000_000), (NEVER, 0), (NEVER, 1000), (NEVER, 1_000_000_000), (5_000_000, 4_999_000)];
     rep.note(&format!("crash points: the connection is cut (EOF) after every path of <= {depth} actions over {{publish QoS 1/2, PUBACK, PUBREC ok/failing, PUBCOMP}}, then hook H1 backdates the disconnection and the context reconnects; x {} (expiry interval, elapsed) pairs incl. 0, finite before/after expiry (>= 6 s from the boundary), never; the second wire before any new request is compared with the model, then acknowledgements are delivered on the new connection", configs.len()));
